@@ -1,6 +1,6 @@
 (* Runner entry points: one number per executable model function.  The Python
    harness reads the "(* ENTRY n name *)" comments to build its name table. *)
-From HX Require Import Model.Base Model.Cell Model.EmitterEntry Model.Serial Model.DateFns Model.Comparator Model.Value Model.Logic Model.Lookup Model.Text Model.Operators.
+From HX Require Import Model.Base Model.Cell Model.EmitterEntry Model.Serial Model.DateFns Model.Comparator Model.Value Model.Logic Model.Lookup Model.Text Model.Operators Model.ErrorFlow.
 
 Definition dispatch (e : Z) (a : list Z) : list Z :=
   match e with
@@ -26,5 +26,6 @@ Definition dispatch (e : Z) (a : list Z) : list Z :=
   | 1803 => e_MATCH a       (* ENTRY 1803 MATCH *)
   | 1501 => e_text a        (* ENTRY 1501 text *)
   | 601 => e_arith a        (* ENTRY 601 arith *)
+  | 801 => e_errflow a      (* ENTRY 801 errflow *)
   | _ => [-999]
   end.
